@@ -513,11 +513,16 @@ class Instance:
                 init = design._const(d['init'], self.params) & ((1 << w) - 1)
             design.init[self.path + '.' + n] = init
             design.state[self.path + '.' + n] = dict(width=w, init=init, kind=d['kind'])
+        self.mem_init = {}
         for st in mod.initials:
             self._initial(st)
 
     def _initial(self, st):
         if st[0] == 'block': [self._initial(x) for x in st[1]]
+        elif st[0] in ('b', 'nb') and st[1][0] == 'bit' and self.m.decls.get(st[1][1], {}).get('depth') is not None:
+            idx = self.d._const_eval(st[1][2], self.params); v = self.d._const_eval(st[2], self.params)
+            if idx is None or v is None: raise VError('non-constant memory initialisation')
+            self.mem_init.setdefault(st[1][1], {})[idx] = v
         elif st[0] in ('b', 'nb') and st[1][0] == 'id':
             n = st[1][1]; w = self.width(n)
             v = self.d._const_eval(st[2], self.params)
@@ -687,9 +692,21 @@ class Instance:
             v = self.value(e[1]) if (e[1] in self.m.decls) else ir.const(self.params[e[1]] & 0xFFFFFFFF)
             return self._fit(v, n, W, S and self.signed(e))
         if k == 'bit':
-            base = self.value(e[1]); bw = self.width(e[1])
+            bw = self.width(e[1])
+            base = self.value(e[1]) if self.m.decls[e[1]].get('depth') is None else None
             if self.m.decls[e[1]].get('depth') is not None:
-                raise VError('memory word select not supported here')
+                if e[1] in self.regs: raise VError('memory written in a process is not supported')
+                words = self.mem_init.get(e[1], {})
+                dd = self.m.decls[e[1]]['depth']
+                lo_ = self.d._const(dd[0], self.params); hi_ = self.d._const(dd[1], self.params)
+                lo_, hi_ = min(lo_, hi_), max(lo_, hi_)
+                idx, iw, isg = self.self_eval(e[2])
+                self.d.undef_conds.append(ir.bor_(ir.lt(idx, lo_), ir.gt(idx, hi_)))
+                r = ir.const(0)
+                for a_ in range(hi_, lo_ - 1, -1):
+                    if a_ not in words: self.d.undef_conds.append(ir.eq(idx, a_))
+                    r = ir.ite(ir.eq(idx, a_), words.get(a_, 0) & ((1 << bw) - 1), r)
+                return r
             if self.m.decls[e[1]]['range'] is None and self.m.decls[e[1]]['kind'] != 'integer':
                 self.d.errors.append('bit select %s[...] on the scalar %s in module %s' % (e[1], e[1], self.m.name))
             idx, iw, isg = self.self_eval(e[2])
@@ -802,6 +819,16 @@ class Instance:
         return env[name] if name in env else self.value(name)
 
     def _exec(self, st, env, nb, guard, assigned, blocking_only=False):
+        n0 = len(self.d.undef_conds)
+        try:
+            return self._exec1(st, env, nb, guard, assigned, blocking_only)
+        finally:
+            # an x read in a statement only matters on the paths that execute the statement
+            if st[0] in ('b', 'nb'):
+                for i in range(n0, len(self.d.undef_conds)):
+                    self.d.undef_conds[i] = ir.band_(guard, self.d.undef_conds[i])
+
+    def _exec1(self, st, env, nb, guard, assigned, blocking_only=False):
         k = st[0]
         if k == 'block':
             for x in st[1]: self._exec(x, env, nb, guard, assigned, blocking_only)
